@@ -656,15 +656,19 @@ class _Abort(Exception):
     pass
 
 
-def _perturbed(fs, sgn):
-    """relative perturbation of size ~1e-12 with an entry-dependent sign pattern (zeros stay zeros)"""
+def _perturbed(fs, t):
+    """probe number t: relative perturbation of size 1e-12 .. 1e-13 whose sign / size pattern over the entries is a fixed
+    hash of (t, mode, row, column); zeros stay zeros"""
+    import math
+
     out = []
+    mag = (1e-12, 1e-12, 1e-13, 1e-13, 3e-13, 3e-13)[t % 6]
     for n, f in enumerate(fs):
         g = np.array(f, dtype=float, copy=True)
         for i in range(g.shape[0]):
             for j in range(g.shape[1]):
-                pat = 1.0 if (i + 2 * j + n) % 2 == 0 else -1.0
-                g[i, j] *= 1.0 + sgn * pat * 1e-12 * (1.0 + 0.37 * ((3 * i + j) % 5))
+                h = (math.sin(12.9898 * (i + 1) + 78.233 * (j + 1) + 37.719 * (n + 1) + 4.581 * (t + 1)) * 43758.5453) % 1.0
+                g[i, j] *= 1.0 + mag * (2.0 * h - 1.0) * (1.0 if t % 2 == 0 else -1.0)
         out.append(g)
     return out
 
@@ -882,37 +886,34 @@ def admissibility(case, base):
             return False, "gap", {}
         return True, "", {"r2": ref[j][0], "mmax": 1.0, "iters": j}
     if alg == "cp_apr":
-        # (1) reference side: the Poisson objective of the start must be finite - the start model is positive wherever
-        #     the data are
         if base.get("ok") and "U0" in base:
             w0, U0 = base["W0"], base["U0"]
         elif case["init"]["kind"] == "given":
             w0, U0 = guess_apr(A.shape, int(case["rank"]), case["init"]["g"], int(case.get("seed", 0)))
         else:
             return False, "no_start", {}
-        M0 = rm.kruskal(w0, U0)
-        if os.environ.get("C18_STARTFILTER") and np.any((A > 0) & ~(M0 > 1e-9 * float(np.max(M0)))):
-            return False, "start_zero_on_data", {}
-        # (2) conditioning probe (the only place where admissibility looks at the implementation: the row solvers are
+        # conditioning probe (the only place where admissibility looks at the implementation: the row solvers are
         #     projected / line-search methods whose branch decisions have no closed form).  The BASE presentation (dense,
         #     silent) is re-run from the same start perturbed by +-1e-12 (relative): if that already moves the result
         #     beyond the comparison tolerance, the result is decided by rounding and no relation between two
         #     presentations is asserted.  The variant under test never takes part in this decision.
         amax = float(np.max(np.abs(A)))
-        for sgn in (1.0, -1.0):
-            pr = run_safe(case, {}, start=(w0, _perturbed(U0, sgn)))
+        for t in range(2 if case["alg"] == "mu" else 6):
+            pr = run_safe(case, {}, start=(w0, _perturbed(U0, t)))
+            sens = False
             if not base.get("ok"):
-                if pr["ok"] or pr["key"] != base["key"]:
-                    return False, "rounding_sensitive", {}
-                continue
-            if not pr["ok"]:
-                return False, "rounding_sensitive", {}
-            if pr["M"].shape != base["M"].shape or not np.all(np.isfinite(pr["M"])) or not np.all(np.isfinite(base["M"])):
-                return False, "rounding_sensitive", {}
-            if float(np.max(np.abs(pr["M"] - base["M"]))) > 0.01 * TOL_M * amax:
-                return False, "rounding_sensitive", {}
-            if pr["iters"] != base["iters"] or pr["inner"] != base["inner"]:
-                return False, "rounding_sensitive", {}
+                sens = pr["ok"] or pr["key"] != base["key"]
+            elif not pr["ok"]:
+                sens = True
+            elif pr["M"].shape != base["M"].shape or not np.all(np.isfinite(pr["M"])) or not np.all(np.isfinite(base["M"])):
+                sens = True
+            elif float(np.max(np.abs(pr["M"] - base["M"]))) > 0.01 * TOL_M * amax:
+                sens = True
+            elif pr["iters"] != base["iters"] or pr["inner"] != base["inner"]:
+                sens = True
+            if sens:
+                # the same arithmetic twice still has to give the same result: print / seed stay asserted
+                return False, "rounding_sensitive", {"exact_ok": True}
         return True, "", {}
     return True, "", {}
 
@@ -937,7 +938,7 @@ def run_case(case, ctx):
     if not adm:
         ctx.inadm()
         ctx.count(f"{alg}:inadmissible:{why}")
-    compared = 0
+    stats = {"compared": 0}
 
     def sub(v):
         s = {key: val for key, val in case.items() if key != "only"}
@@ -977,25 +978,39 @@ def run_case(case, ctx):
         other = run_safe(case, v)
         rel = v["rel"]
         ctx.count(f"{alg}:{rel}")
+        # relations between two runs with the very same arithmetic (printing / same seed) need no conditioning
+        adm_case = adm
+        adm = bool(adm_case or (extra.get("exact_ok") and rel in ("print", "seed")))
+        try:
+            _compare(ctx, case, v, base, other, adm, why, alg, sub_alg, kind, amax, nx2, fail, stats)
+        finally:
+            adm = adm_case
+    compared = stats["compared"]
+    _wrapup(ctx, case, base, adm, alg, sub_alg, kind, A, amax, nx2, compared)
+
+
+def _compare(ctx, case, v, base, other, adm, why, alg, sub_alg, kind, amax, nx2, fail, stats):
+    rel = v["rel"]
+    if True:
         # ---- exceptions
         if not base["ok"] or not other["ok"]:
             if not base["ok"] and not other["ok"]:
                 if base["key"] == other["key"]:
                     ctx.count(f"{alg}:both_abort_identically")
                     ctx.outcome([alg, rel, "both_abort", base["key"][0]])
-                    continue
+                    return
                 if base["key"][0] == other["key"][0] and rel in ("scale", "relabel"):
                     ctx.count(f"{alg}:both_abort_same_type")      # messages may carry mode numbers / values
-                    continue
+                    return
             if not adm:
                 ctx.count(f"{alg}:inadmissible_exception_differs")
                 bad = other if not other["ok"] else base
                 if not _benign(bad["exc"]) and not isinstance(bad["exc"], AssertionError):
                     fail(v, bad["sym"], f"(inadmissible case, {why}) " + bad["msg"])
-                continue
+                return
             fail(v, "exception_differs",
                  f"base: {'ok' if base['ok'] else base['msg']} ; variant: {'ok' if other['ok'] else other['msg']}")
-            continue
+            return
         if rel == "print":
             if other["text"]:
                 ctx.flag(f"{alg}:printed")
@@ -1003,7 +1018,7 @@ def run_case(case, ctx):
                 fail(v, "wrong_value:printout", "a printing run printed nothing")
         if not adm:
             ctx.outcome([alg, rel, "inadm"])
-            continue
+            return
         # ---- the start actually used is the same (seeded / generated starts)
         if rel in ("seed", "print", "sparse") and kind != "given" and alg != "hosvd":
             same = len(base["U0"]) == len(other["U0"]) and all(
@@ -1013,20 +1028,20 @@ def run_case(case, ctx):
                 for a, b in zip(base["U0"], other["U0"]))
             if not same:
                 fail(v, "init_not_reproducible", f"the generated start differs between the two runs (init={case['init']})")
-                continue
+                return
         # ---- expanded models
         cfac = float(v.get("c", 1.0))
         Mb, Mo = base["M"], other["M"]
         if Mb.shape != Mo.shape:
             fail(v, "wrong_shape", f"model shapes {Mb.shape} vs {Mo.shape}")
-            continue
+            return
         if not (np.all(np.isfinite(Mb)) and np.all(np.isfinite(Mo))):
             if np.array_equal(np.isfinite(Mb), np.isfinite(Mo)):
                 ctx.count(f"{alg}:nonfinite_both")
-                continue
+                return
             fail(v, "wrong_value:nonfinite", "one run returns non-finite model entries, the other does not")
-            continue
-        compared += 1
+            return
+        stats["compared"] += 1
         dev = float(np.max(np.abs(Mo - cfac * Mb))) if Mb.size else 0.0
         lim = TOL_M * amax * cfac
         bad = dev > lim
@@ -1063,6 +1078,9 @@ def run_case(case, ctx):
                 fail(v, "wrong_value:kkt", f"reported KKT violations {base['kkt']} vs {other['kkt']}")
         ctx.flag(f"{alg}:{rel}:compared")
         ctx.outcome([alg, sub_alg, rel, {key: val for key, val in v.items() if key != "rel"}, "ok" if not bad else "bad"])
+
+
+def _wrapup(ctx, case, base, adm, alg, sub_alg, kind, A, amax, nx2, compared):
     # ---- vacuity control / statistics
     if base["ok"] and adm:
         Mb = base["M"]
